@@ -176,6 +176,14 @@ func GenOp(t *rapid.T, w *World, p *Profile) Op {
 			cs = append(cs, cand{"replay", 5 * p.W["replay"]})
 		}
 	}
+	if vs := w.Vers[w.WorkingVersion()]; vs != nil && len(vs.Writes) == 0 && !w.Dirty && w.Cur < w.Latest && w.Vers[w.Cur] != nil && saveOK && p.W["replay"] > 0 {
+		// the next existing version was a commit without writes: its replay is a plain SaveVersion - and a restarted node
+		// may well prune (below the version it sits on) before it gets there
+		cs = append(cs, cand{"save", 4 * p.W["replay"]})
+		if p.W["prune"] > 0 && w.First < w.Cur {
+			cs = append(cs, cand{"prune", 2 * p.W["replay"]})
+		}
+	}
 	add("rollback", true)
 	add("reopen", true)
 	add("prune", w.Latest > 0)
